@@ -166,7 +166,7 @@ CLASS = {
     "FormatError": "Format", "SignatureVerificationError": "Signature", "LinkNotFoundError": "LinkNotFound",
     "InvalidMetadata": "InvalidMetadata", "KeyError": "KeyError", "IndexError": "IndexError", "TypeError": "TypeError",
     "AttributeError": "Attribute", "NotImplementedError": "NotImplemented", "KeyExpirationError": "KeyExpired",
-    "PrefixError": "Prefix",
+    "PrefixError": "Prefix", "KeyNotFoundError": "KeyError", "CommandError": "ValueError",
 }
 
 
@@ -385,7 +385,11 @@ class Scen:
         if "ok" in out:
             for w in written:
                 if w in after:
-                    a, b, c, d = self.harvest(w)
+                    try:
+                        a, b, c, d = self.harvest(w)
+                    except Exception as e:  # noqa
+                        self.po.append("the file %r written by a successful %s does not load again: %s" % (w, tag, type(e).__name__))
+                        continue
                     sign_rows += a
                     dumps_rows += b
                     b64e_rows += c
@@ -582,7 +586,9 @@ class Scen:
             md.create_signature(other.signer)
             if how == "resigned_both":
                 md.signatures = md.signatures + old
-            md.dump(path)
+            text = repr(md) if isinstance(md, Metablock) else json.dumps(md.to_dict(), sort_keys=True)
+            with open(path, "wb") as fp:          # not md.dump: the code under test must not prepare its own inputs
+                fp.write(text.encode("utf-8"))
             self.harvest(tr["file"])
             tr["tamper"] = how if how == "resigned" else None
         elif how == "dup":
@@ -802,6 +808,25 @@ def pinned():
          "faults": [["exc", k, None, False] for k in range(6)] + [["exc", 2, 7, False], ["cut", 3, None, True]]},
         {"ev": "start", "step": "b[ui]d", "key": D, "paths": ["src"]},
         {"ev": "stop", "step": "b[ui]d", "key": M, "paths": ["src"], "mdir": "out"}]})
+    # the signature check of the preliminary record in each gpg branch
+    T = lambda step, how: {"ev": "tamper", "step": step, "key": M, "how": how, "seed": 7, "other": 3}
+    out.append({"name": "gpg_guard", "tree": tree, "dirs": ["out"], "events": [
+        {"ev": "start", "step": "g1", "key": M, "paths": ["src"]}, T("g1", "edited"),
+        {"ev": "stop", "step": "g1", "key": D, "paths": ["src"], "expect_fail": True},
+        {"ev": "stop", "step": "g1", "key": M, "paths": ["src"], "expect_fail": True},
+        {"ev": "start", "step": "g2", "key": D, "paths": ["src"]}, T("g2", "sig_nibble"),
+        {"ev": "stop", "step": "g2", "key": D, "paths": ["src"], "expect_fail": True},
+        {"ev": "stop", "step": "g2", "key": ["gpg", "keyid", hk.GPG_SIGN_SUB], "paths": ["src"], "expect_fail": True},
+        {"ev": "start", "step": "g3", "key": M, "paths": ["src"]}, T("g3", "resigned"),
+        {"ev": "stop", "step": "g3", "key": D, "paths": ["src"], "expect_fail": True},
+        {"ev": "stop", "step": "g3", "key": M, "paths": ["src"], "expect_fail": True},
+        {"ev": "start", "step": "g4", "key": M, "paths": ["src"]}, T("g4", "dup"),
+        {"ev": "stop", "step": "g4", "key": D, "paths": ["src"], "expect_fail": True},
+        {"ev": "stop", "step": "g4", "key": M, "paths": ["src"], "expect_fail": True},
+        {"ev": "start", "step": "g5", "key": D, "paths": ["src"]},
+        {"ev": "tree", "path": "src/a.c", "content": "2"},
+        {"ev": "stop", "step": "g5", "key": D, "paths": ["src"], "command": ["cc"], "mdir": "out",
+         "faults": [["exc", k, None, False] for k in range(6)] + [["cut", 2, 40, True], ["cut", 4, None, True]]}]})
     return out
 
 
